@@ -128,9 +128,17 @@ def _fp_op(rng, n, exact, fptrack=None):
     if fptrack == 2:
         style = rng.random()
         data = []
+        zrows = set(rng.sample(range(n), rng.randint(1, max(1, n // 3)))) | {0, n - 1}
+        tiny = [float.fromhex("0x1p-149"), float.fromhex("0x1p-140"), float.fromhex("0x1.8p-130"), 1e-42, 3e-39, 0.0]
         for x in range(n):
             for y in range(n):
-                if style < 0.15:
+                if 0.5 <= style < 0.62:
+                    # rows of exact zeros (incl. the outermost ones) inside a positive grid: particles there see 0/0
+                    v = 0.0 if (y in zrows or (y + 1) in zrows or (y - 1) in zrows) else float(rng.randint(1, 16))
+                elif 0.62 <= style < 0.72:
+                    # underflowed tails: subnormal and zero cells
+                    v = rng.choice(tiny) if (y < n // 4 or y >= n - n // 4) else float(rng.randint(1, 16))
+                elif style < 0.15:
                     v = 0.0                                            # empty grid: 0/0
                 elif style < 0.3:
                     v = float(rng.choice([0, 0, 0, 1]))                # mostly empty: x/0 and 0/0
@@ -143,7 +151,8 @@ def _fp_op(rng, n, exact, fptrack=None):
                     v = f32(2.718281828 ** g)
                 data.append(v)
         o["data"] = data
-        o["datastyle"] = "zero" if style < 0.15 else "sparse" if style < 0.3 else "signed" if style < 0.5 else "positive"
+        o["datastyle"] = ("zero" if style < 0.15 else "sparse" if style < 0.3 else "signed" if style < 0.5 else
+                          "zero-rows" if style < 0.62 else "underflow" if style < 0.72 else "positive")
     return o
 
 
@@ -237,8 +246,8 @@ def run_impl(ctx, cases, harness="impl_track"):
             if o["k"] == "fp":
                 t = next(tabs)
                 d["tab"] = [(int(t[j]), parse_c(t[j + 1])) for j in range(0, len(t), 2)]
-                yc, delta, pmin = [parse_c(t) for t in next(infos)]
-                d["yc"], d["delta"], d["pmin"] = yc, delta, pmin
+                yc, delta, pmin, zb0 = [parse_c(t) for t in next(infos)]
+                d["yc"], d["delta"], d["pmin"], d["zb0"] = yc, delta, pmin, zb0
                 if o["fptrack"] == 3:
                     d["noise"] = [parse_c(t) for t in next(noises)]
             per.append(d)
@@ -262,7 +271,7 @@ def model_text(c, r):
         d = r["ops"][k]
         if not _finite(pre):
             break
-        if o["k"] == "fp" and (o["fptrack"] in (1, 2)) and any(isinstance(w, str) for _, w in d["tab"]):
+        if o["k"] == "fp" and any(isinstance(w, str) for _, w in d["tab"]):
             break
         hdr = "track %s.%d %d %d 1\n%s\n" % (c.cid, k, n, len(pre), " ".join("%s %s" % (qtok(x), qtok(y)) for x, y in pre))
         if o["k"] in ("kick", "drift", "rf"):
@@ -273,14 +282,11 @@ def model_text(c, r):
         else:
             ft = o["fptrack"]
             tab = " ".join("%d %s" % (i, qtok(w)) for i, w in d["tab"])
-            if ft == 0:
-                body = "fpnone"
-            elif ft == 1:
-                body = "fp1 %d %s" % (o["dt"], tab)
-            elif ft == 2:
-                body = "fp2 %d %s\n%s" % (o["dt"], tab, " ".join(qtok(Fraction(v)) for v in o["data"]))
-            else:
-                body = "fps %s %s %s" % (qtok(Fraction(f32(o["e1"]))), qtok(d["yc"]), " ".join(qtok(v) for v in d["noise"]))
+            noise = d["noise"] if ft == 3 else [Fraction(0)] * len(pre)
+            body = "gfp %d %d %s %s %s %d %s%s %s" % (
+                ft, o["dt"], qtok(Fraction(f32(o["e1"]))), qtok(d["zb0"]), qtok(d["yc"]), 1 if ft == 2 else 0, tab,
+                ("\n" + " ".join(qtok(Fraction(v)) for v in o["data"])) if ft == 2 else "",
+                " ".join(qtok(v) for v in noise))
         t.append(hdr + body + "\n")
         keys.append(k)
         pre = d["pos"]
@@ -316,6 +322,9 @@ def run_model(ctx, cases, impl):
             d["pos"] = [(q[i], q[i + 1]) for i in range(0, len(q), 2)]
             ix = v["idx"][0]
             d["idx"] = [(ix[i] == "1", int(ix[i + 1], 16), int(ix[i + 2], 16)) for i in range(0, len(ix), 3)]
+            if "gpos" in v:
+                g = [t if t in ("nan", "inf", "-inf") else parse_q(t) for t in v["gpos"][0]]
+                d["gpos"] = [(g[i], g[i + 1]) for i in range(0, len(g), 2)]
         if "tab" in v:
             t = v["tab"][0]
             d["tab"] = [(int(t[j], 16), parse_q(t[j + 1])) for j in range(0, len(t), 2)]
@@ -349,6 +358,8 @@ def _op_tol(c, o, d, pre, k_part, exact):
         yi = min(int(y // 1), n - 1)
         row = d["tab"][yi * o["dt"]:(yi + 1) * o["dt"]]
         terms = [Fraction(o["data"][xi * n + i]) * w for i, w in row]
+        if any(t != 0 and abs(t) < Fraction(1, 2 ** 120) for t in terms):
+            return None          # products in or below the subnormal range: the float sum has no relative accuracy
         ch = sum(terms)
         mo = sum(t * (i - yi) for t, (i, _) in zip(terms, row))
         if ch == 0:
@@ -377,11 +388,27 @@ def compare_case(c, r, model):
         if mres is None or "pos" not in mres:
             dis.append(dict(what="model-missing", op=k))
             break
+        gp = mres.get("gpos")
+        if gp is None or len(gp) != len(mres["pos"]):
+            dis.append(dict(what="generated-model-missing", op=k))
+            break
         for pi, ((ix, iy), (mx, my)) in enumerate(zip(d["pos"], mres["pos"])):
             if isinstance(ix, str) or isinstance(iy, str):
                 dis.append(dict(what="non-finite", op=k, opkind=o["k"], particle=pi, impl=[str(ix), str(iy)]))
                 continue
             tol = _op_tol(c, o, d, pre[pi], pi, exact)
+            gx, gy = gp[pi]
+            if isinstance(gx, str) or isinstance(gy, str):
+                # the model assembled from the generated code produces a non-finite coordinate
+                dis.append(dict(what="generated-model-non-finite", op=k, opkind=o["k"], fptrack=o.get("fptrack"), particle=pi,
+                                pre=[fhex(float(v)) for v in pre[pi]], generated=[str(gx), str(gy)]))
+                continue
+            if tol is not None and (abs(ix - gx) > tol or abs(iy - gy) > tol):
+                dis.append(dict(what="position(generated)", op=k, opkind=o["k"], fptrack=o.get("fptrack"), particle=pi,
+                                pre=[fhex(float(v)) for v in pre[pi]], impl=[fhex(float(ix)), fhex(float(iy))],
+                                generated=[str(gx), str(gy)], tol=str(tol)))
+                if len(dis) > 4:
+                    return dis
             if tol is None or tol != 0:
                 all_exact = False
             if tol is None:
@@ -488,3 +515,167 @@ def run_blobs(ctx, cases):
                           mpart=[parse_q(t) for t in m["part"][0]], mmom=[parse_q(t) for t in m["mom"][0]],
                           mout=[parse_q(t) for t in m["out"][0]])
     return res
+
+
+# ------------------------------------------------------------------------------------ time-dependent RF map + tracking
+
+class DynCase:
+    """DynamicRFKickMap (linear RF, phase modulation and/or phase/amplitude noise) and a DriftMap driven as main() drives them
+    (`rfm->apply(); rfm->applyToAll(ps); drm->apply(); drm->applyToAll(ps)`), a unit hat-blob on particle 0"""
+
+    def __init__(self, cid, n, it, qmax, angle, revpart, frf, phasespread, amplspread, modampl, modinc, steps, seed, slip0, parts, renew=6):
+        self.cid, self.n, self.it, self.qmax, self.angle, self.revpart, self.frf = cid, n, it, qmax, angle, revpart, frf
+        self.phasespread, self.amplspread, self.modampl, self.modinc = phasespread, amplspread, modampl, modinc
+        self.steps, self.seed, self.slip0, self.parts, self.renew = steps, seed, slip0, parts, renew
+
+    def impl_text(self):
+        return "dyntrack %s %d %d %s %s %s %r %r %s %s %s %r %d %d %s %d %d %s\n" % (
+            self.cid, self.n, self.it, fhex(-self.qmax), fhex(self.qmax), fhex(self.angle), self.revpart, self.frf,
+            fhex(self.phasespread), fhex(self.amplspread), fhex(self.modampl), self.modinc, self.steps, self.seed,
+            fhex(self.slip0), self.renew, len(self.parts), " ".join("%s %s" % (fhex(x), fhex(y)) for x, y in self.parts))
+
+    def replay(self):
+        return dict(kind="dyn", id=self.cid, n=self.n, it=self.it, qmax=fhex(self.qmax), angle=fhex(self.angle), revpart=self.revpart,
+                    frf=self.frf, phasespread=fhex(self.phasespread), amplspread=fhex(self.amplspread), modampl=fhex(self.modampl),
+                    modinc=self.modinc, steps=self.steps, seed=self.seed, slip0=fhex(self.slip0), renew=self.renew,
+                    parts=[[fhex(x), fhex(y)] for x, y in self.parts])
+
+
+def dyn_from_replay(rp):
+    fh = float.fromhex
+    return DynCase(rp["id"], rp["n"], rp["it"], fh(rp["qmax"]), fh(rp["angle"]), rp["revpart"], rp["frf"], fh(rp["phasespread"]),
+                   fh(rp["amplspread"]), fh(rp["modampl"]), rp["modinc"], rp["steps"], rp["seed"], fh(rp["slip0"]),
+                   [(fh(x), fh(y)) for x, y in rp["parts"]], rp.get("renew", 6))
+
+
+def gen_dyn(ctx, count, prefix="d"):
+    rng = ctx.rng
+    cases = []
+    for i in range(count):
+        n = rng.choice([56, 64])
+        it = rng.choice([3, 4])
+        angle = f32(rng.uniform(0.08, 0.3))
+        frf = 4.77e7 * rng.uniform(0.6, 1.6)                 # bl2phase = 2 pi f_RF / c of order one
+        style = i % 3                                        # 0: phase modulation, 1: phase + amplitude noise, 2: both
+        modampl = f32(rng.uniform(0.8, 2.0)) if style in (0, 2) else 0.0
+        modinc = rng.choice([0.25, 0.2, 0.31, 0.125])
+        phasespread = f32(rng.uniform(0.3, 0.8)) if style in (1, 2) else 0.0
+        amplspread = f32(rng.uniform(0.0, 0.05)) if style in (1, 2) else 0.0
+        steps = rng.randint(12, 40)
+        slip0 = f32(angle * rng.uniform(0.6, 1.4))
+        c0 = (n - 1) / 2.0
+        parts = [(f32(c0 + rng.uniform(-3, 3)), f32(c0 + rng.uniform(-3, 3)))]
+        parts += [(f32(rng.uniform(0, n - 1)), f32(rng.uniform(0, n - 1))) for _ in range(rng.randint(2, 6))]
+        parts += [(0.0, float(n - 1)), (float(n - 1), 0.0)]
+        cases.append(DynCase("%s%d" % (prefix, i), n, it, 6.0, angle, 1.0, frf, phasespread, amplspread, modampl, modinc, steps,
+                             rng.randint(1, 2 ** 31 - 1), slip0, parts, renew=rng.choice([4, 6])))
+        ctx.count("dyn:" + ("modulation", "noise", "modulation+noise")[style])
+    return cases
+
+
+def run_dyn(ctx, cases):
+    tg = ctx.build(harness=("impl_track",))
+    rc, out, err = run_driver(tg["impl_track"], "".join(c.impl_text() for c in cases))
+    if rc != 0:
+        raise RuntimeError("impl_track (dyntrack) failed rc=%d: %s" % (rc, err[-2000:]))
+    impl = parse_cases(out)
+    res = {}
+    mtext = []
+    for c in cases:
+        r = impl[c.cid]
+        d = dict(rf=[parse_c(t) for t in r["rf"][0]], offs0=[parse_c(t) for t in r["offs0"][0]],
+                 queue=_pairs(r["queue"][0]), offs=[[parse_c(t) for t in l] for l in r["offs"]],
+                 pre=[_pairs(l) for l in r["pre"]], rfpos=[_pairs(l) for l in r["rfpos"]], pos=[_pairs(l) for l in r["pos"]],
+                 rfmom=[[parse_c(t) for t in l] for l in r["rfmom"]], mom=[[parse_c(t) for t in l] for l in r["mom"]])
+        res[c.cid] = d
+        flat = d["rf"] + d["offs0"] + [v for q in d["queue"] for v in q] + [v for l in d["pre"] for q in l for v in q]
+        d["finite"] = not any(isinstance(v, str) for v in flat)
+        if d["finite"]:
+            mtext.append("dyntrack %s %d %s %d %d %s %s\n%s\n" % (
+                c.cid, c.n, " ".join(qtok(v) for v in d["rf"]), c.steps, len(c.parts), " ".join(qtok(v) for v in d["offs0"]),
+                " ".join("%s %s" % (qtok(a), qtok(b)) for a, b in d["queue"]),
+                "\n".join(" ".join("%s %s" % (qtok(x), qtok(y)) for x, y in l) for l in d["pre"])))
+    rc, out, err = run_driver(vp_coq.model_path("track"), "".join(mtext))
+    if rc != 0:
+        raise RuntimeError("model_track (dyntrack) failed rc=%d: %s" % (rc, err[-2000:]))
+    model = parse_cases(out)
+    for c in cases:
+        m = model.get(c.cid)
+        if m is not None:
+            res[c.cid]["moffs"] = [[parse_q(t) for t in l] for l in m.get("offs", [])]
+            res[c.cid]["mpos"] = [[(parse_q(l[i]), parse_q(l[i + 1])) for i in range(0, len(l), 2)] for l in m.get("pos", [])]
+    return res
+
+
+def compare_dyn(c, r):
+    """model (generated DynamicRFKickMap::apply over the queue, then KickMap::applyTo reading `_offset`) against the
+    implementation, step by step from the implementation's particles before the RF applyToAll"""
+    dis = []
+    if not r["finite"] or "moffs" not in r:
+        return [dict(what="dyn-non-finite-or-model-missing")]
+    tanq, sync, bl2 = r["rf"][0], r["rf"][1], r["rf"][2]
+    for k in range(c.steps):
+        if k >= len(r["moffs"]) or k >= len(r["offs"]):
+            dis.append(dict(what="dyn-steps", step=k))
+            break
+        ph, am = r["queue"][k]
+        # offsets: tan*(xc - x) + tan*(sync - ph)/bl2/delta, times ampl: a handful of float roundings on terms of this size
+        scale = abs(tanq) * (c.n + abs(sync - ph) / abs(bl2) / r["rf"][4]) * (abs(am) + 1) + 1
+        otol = 16 * U * scale
+        for x, (a, b) in enumerate(zip(r["offs"][k], r["moffs"][k])):
+            if isinstance(a, str) or abs(a - b) > otol:
+                dis.append(dict(what="dyn-offsets", step=k, x=x, impl=str(a), model=str(b), tol=str(otol)))
+                return dis
+        for pi, ((ix, iy), (mx, my)) in enumerate(zip(r["rfpos"][k], r["mpos"][k])):
+            if isinstance(ix, str) or isinstance(iy, str) or abs(ix - mx) > 0 or abs(iy - my) > otol + 8 * U * c.n:
+                dis.append(dict(what="dyn-position", step=k, particle=pi, impl=[str(ix), str(iy)], model=[str(mx), str(my)]))
+                return dis
+    return dis
+
+
+# ------------------------------------------------------------------------------------ loading of the tracking file
+
+def run_load(ctx, count):
+    """main()'s `{grid->x(q), grid->y(p)}` against gen_load (PhaseSpace::x / y as generated); returns (cases, results)"""
+    rng = ctx.rng
+    tg = ctx.build(harness=("impl_track",))
+    specs = []
+    for i in range(count):
+        n = rng.choice(range(8, 65))
+        exact = i % 2 == 0
+        if exact:
+            d = rng.choice([0.125, 0.25, 0.5])
+            qmin, pmin = -rng.randint(1, n - 2) * d, -rng.randint(1, n - 2) * d
+            qmax, pmax = qmin + (n - 1) * d, pmin + (n - 1) * d
+            pts = [(rng.randint(-n * 16, n * 16) * d / 8, rng.randint(-n * 16, n * 16) * d / 8) for _ in range(12)]
+        else:
+            h = f32(rng.uniform(3, 8))
+            sh = [f32(rng.uniform(-2, 2)), f32(rng.uniform(-2, 2))]
+            qmin, qmax, pmin, pmax = f32(-h + sh[0]), f32(h + sh[0]), f32(-h + sh[1]), f32(h + sh[1])
+            pts = [(f32(rng.uniform(-1.5 * h, 1.5 * h)), f32(rng.uniform(-1.5 * h, 1.5 * h))) for _ in range(12)]
+        pts += [(qmin, pmax), (qmax, pmin), (f32(qmin - 1), f32(pmax + 1)), (1e30, -1e30)]
+        specs.append(dict(id="l%d" % i, n=n, axes=[qmin, qmax, pmin, pmax], pts=pts, exact=exact))
+    text = "".join("load %s %d %s %d %s\n" % (s["id"], s["n"], " ".join(fhex(a) for a in s["axes"]), len(s["pts"]),
+                                              " ".join("%s %s" % (fhex(q), fhex(p)) for q, p in s["pts"])) for s in specs)
+    rc, out, err = run_driver(tg["impl_track"], text)
+    if rc != 0:
+        raise RuntimeError("impl_track (load) failed rc=%d: %s" % (rc, err[-2000:]))
+    impl = parse_cases(out)
+    mtext = []
+    for s in specs:
+        ax = [parse_c(t) for t in impl[s["id"]]["axes"][0]]
+        s["impl_axes"] = ax
+        s["ipos"] = _pairs(impl[s["id"]]["pos"][0])
+        if not any(isinstance(a, str) for a in ax):
+            mtext.append("load %s %d %s %d %s\n" % (s["id"], s["n"], " ".join(qtok(a) for a in ax), len(s["pts"]),
+                                                    " ".join("%s %s" % (qtok(Fraction(f32(q))), qtok(Fraction(f32(p)))) for q, p in s["pts"])))
+    rc, out, err = run_driver(vp_coq.model_path("track"), "".join(mtext))
+    if rc != 0:
+        raise RuntimeError("model_track (load) failed rc=%d: %s" % (rc, err[-2000:]))
+    model = parse_cases(out)
+    for s in specs:
+        m = model.get(s["id"])
+        if m is not None:
+            g = [t if t in ("nan", "inf", "-inf") else parse_q(t) for t in m["pos"][0]]
+            s["mpos"] = [(g[i], g[i + 1]) for i in range(0, len(g), 2)]
+    return specs
